@@ -688,3 +688,29 @@ GROUPS["g21"] += [
       "            .rev()\n            .position(|c| !matches!(*c, '#' | '-' | '/' | '*') && !c.is_whitespace())",
       "R-C01-span:harper_comments::comment_parsers::without_initiators:twin-scans"),
 ]
+
+# serde: String-based form of LintKind.  p10: the reader has an arm for every string the writer produces (round trip holds);
+# g22: the reader lacks the Punctuation arm (the shape of seeded/C16-c); Vec field skipped when empty with / without `default`.
+_LK = "harper-core/src/linting/lint_kind.rs"
+_LK_ATTR = ("#[derive(Debug, Clone, Copy, Serialize, Deserialize, Is, Default, Hash, PartialEq, Eq)]\npub enum LintKind {",
+            "#[derive(Debug, Clone, Copy, Serialize, Deserialize, Is, Default, Hash, PartialEq, Eq)]\n#[serde(from = \"String\", into = \"String\")]\npub enum LintKind {")
+_LK_IMPLS = ("impl Display for LintKind {",
+             "impl From<LintKind> for String {\n    fn from(kind: LintKind) -> Self {\n        kind.to_string_key()\n    }\n}\n\nimpl From<String> for LintKind {\n    fn from(s: String) -> Self {\n        Self::new_from_str(&s).unwrap_or_default()\n    }\n}\n\nimpl Display for LintKind {")
+GROUPS["p10"] = [
+    E("p-c16-kind-as-string-attr", ["C16", "C14", "C19"], _LK, _LK_ATTR[0], _LK_ATTR[1], None),
+    E("p-c16-kind-as-string-impls", ["C16"], _LK, _LK_IMPLS[0], _LK_IMPLS[1], None),
+    E("p-c16-kind-as-string-arms", ["C16"], _LK,
+      "            \"Word Choice\" => LintKind::WordChoice,\n",
+      "            \"Word Choice\" | \"WordChoice\" => LintKind::WordChoice,\n            \"Punctuation\" => LintKind::Punctuation,\n", None),
+    E("p-c19-context-skipped-with-default", ["C19"], "harper-stats/src/record.rs",
+      "        context: Vec<FatStringToken>,", "        #[serde(default, skip_serializing_if = \"Vec::is_empty\")]\n        context: Vec<FatStringToken>,", None),
+]
+GROUPS["g22"] = [
+    E("c16-kind-as-string-attr", ["C16", "C19"], _LK, _LK_ATTR[0], _LK_ATTR[1], ":LintKind"),
+    E("c16-kind-as-string-impls", ["C16"], _LK, _LK_IMPLS[0], _LK_IMPLS[1], None),
+    E("c16-kind-as-string-arms", ["C16"], _LK,
+      "            \"Word Choice\" => LintKind::WordChoice,\n",
+      "            \"Word Choice\" | \"WordChoice\" => LintKind::WordChoice,\n", None),
+    E("c19-context-skipped-no-default", ["C19"], "harper-stats/src/record.rs",
+      "        context: Vec<FatStringToken>,", "        #[serde(skip_serializing_if = \"Vec::is_empty\")]\n        context: Vec<FatStringToken>,", "R-C19-serde:Record:RecordKind"),
+]
